@@ -9,7 +9,7 @@ import vf
 
 PROP = 'C07'
 FORMATS = ['cbor', 'msgpack', 'ubjson', 'bson']
-TIERS = {'quick': ['q', 'q4', 'tok_q', 'rep'], 'thorough': ['t', 'tok_t', 'rep']}
+TIERS = {'quick': ['q', 'q4', 'tok_q', 'rep', 'tagsib'], 'thorough': ['t', 'tok_t', 'rep', 'tagsib']}
 
 
 def cfgs(tier):
